@@ -20,6 +20,7 @@ template <class X> struct Hist {
         std::vector<std::shared_ptr<TextBuf>> texts;                // caller-supplied text this object may point into
         std::vector<int> pins;                                      // owner slots whose heap blocks this (non-owner) object points into
         int pinned = 0;                                             // number of live non-owner objects pointing into this object's blocks
+        bool damaged = false;                                       // an in-place operation on it failed (out of memory) at some point: content unspecified from there on
         Str origin;
     };
     static const int K = 8;
@@ -41,6 +42,11 @@ template <class X> struct Hist {
 
     void check_object(int i, const char* op) {
         c->attribute("C07");
+        // An object on which an in-place operation once ran out of memory has unspecified content from there on (the library reverts
+        // what it had duplicated to NULL: a port without a host, a path whose first segment now reads as a scheme ...), and so has
+        // everything computed from it: such objects keep taking part in the history (memory safety, ledgers, independence of the source
+        // are still watched) but their meaning is not judged.
+        if (s[i].damaged) { c->count("objects_with_a_failed_operation_in_their_past"); return; }
         Str t; Str why = meaning_check<X>(s[i].u, &t);
         c->evaluations++;
         if (!why.empty()) {
@@ -101,25 +107,29 @@ template <class X> struct Hist {
                 if (x.mgr < 2 && lw.available && lw.allocs) c->violation("C13", fmt("hist/%s/parse/libc-allocation-with-custom-manager", X::tag()), esc(t));
                 if (rc != URI_SUCCESS) continue;
                 if (!faithful_uri<X>(x.u, t)) { c->count("skipped_unfaithful_parse"); LibScope ls; if (x.mgr < 2) X::FreeUriMembersMm(&x.u, mm(x.mgr)); else X::FreeUriMembers(&x.u); continue; }
-                x.live = true; x.texts.clear(); x.texts.push_back(tb); x.origin = "parse(\"" + esc(t) + "\")"; log(fmt("s%d=", d) + x.origin);
+                x.live = true; x.damaged = false; x.texts.clear(); x.texts.push_back(tb); x.origin = "parse(\"" + esc(t) + "\")"; log(fmt("s%d=", d) + x.origin);
                 check_object(d, "parse");
             } else if (op == 3) {                            // make owner
                 int i = pick_live(true); if (i < 0) continue;
                 Slot& x = s[i]; Str before = text(i); bool was = x.u.owner;
                 lw.reset(); int rc;
+                bool inject = x.mgr < 2 && r.chance(1, 10); if (inject) led[x.mgr].arm((long)r.range(1, 10), r.coin());
                 { LibScope ls; rc = x.mgr < 2 ? X::MakeOwnerMm(&x.u, mm(x.mgr)) : X::MakeOwner(&x.u); }
+                if (inject) { bool hit = led[x.mgr].failed > 0; led[x.mgr].fail_at = 0; led[x.mgr].fail_from = false; led[x.mgr].failed = 0; if (hit) { c->count("inplace_ops_with_refused_request"); if (rc != URI_SUCCESS) { x.damaged = true; x.origin = "makeOwner-FAILED(" + x.origin + ")"; log(fmt("makeOwner(s%d) ran out of memory", i)); continue; } } }
                 if (x.mgr < 2 && lw.available && lw.allocs) c->violation("C13", fmt("hist/%s/makeowner/libc-allocation-with-custom-manager", X::tag()), x.origin);
                 if (rc != URI_SUCCESS) { c->count("makeowner_failed"); continue; }
                 log(fmt("makeOwner(s%d)", i)); x.origin = "makeOwner(" + x.origin + ")";
                 Str after = text(i);
-                if (before != after) c->violation("C12", fmt("hist/%s/makeowner/content-changed", X::tag()), fmt("%s before=\"%s\" after=\"%s\"", x.origin.c_str(), esc(before).c_str(), esc(after).c_str()));
+                if (before != after && !x.damaged) c->violation("C12", fmt("hist/%s/makeowner/content-changed", X::tag()), fmt("%s before=\"%s\" after=\"%s\"", x.origin.c_str(), esc(before).c_str(), esc(after).c_str()));
                 if (!was) became_owner(i, "makeowner");
                 check_object(i, "makeowner");
             } else if (op == 4 || op == 5) {                 // normalize
                 int i = pick_live(true); if (i < 0) continue;
                 Slot& x = s[i]; unsigned mask = r.chance(1, 3) ? 63u : r.below(64); bool was = x.u.owner;
                 lw.reset(); int rc;
+                bool inject = x.mgr < 2 && r.chance(1, 10); if (inject) led[x.mgr].arm((long)r.range(1, 10), r.coin());
                 { LibScope ls; rc = x.mgr < 2 ? X::NormalizeSyntaxExMm(&x.u, mask, mm(x.mgr)) : X::NormalizeSyntaxEx(&x.u, mask); }
+                if (inject) { bool hit = led[x.mgr].failed > 0; led[x.mgr].fail_at = 0; led[x.mgr].fail_from = false; led[x.mgr].failed = 0; if (hit) { c->count("inplace_ops_with_refused_request"); if (rc != URI_SUCCESS) { x.damaged = true; x.origin = fmt("normalize-FAILED(%s,0x%x)", x.origin.c_str(), mask); log(fmt("normalize(s%d,0x%x) ran out of memory", i, mask)); continue; } } }
                 if (x.mgr < 2 && lw.available && lw.allocs) c->violation("C13", fmt("hist/%s/normalize/libc-allocation-with-custom-manager", X::tag()), x.origin);
                 if (rc != URI_SUCCESS) { c->count("normalize_failed"); continue; }
                 log(fmt("normalize(s%d,0x%x)", i, mask)); x.origin = fmt("normalize(%s,0x%x)", x.origin.c_str(), mask);
@@ -141,7 +151,7 @@ template <class X> struct Hist {
                 c->attribute("C12");
                 if (deep_snapshot<X>(s[a].u) != snapA || deep_snapshot<X>(s[b].u) != snapB) c->violation("C12", fmt("hist/%s/%s/const-argument-modified", X::tag(), isResolve ? "resolve" : "createref"), trace);
                 if (rc != URI_SUCCESS) { c->count(isResolve ? "resolve_rejected" : "createref_rejected"); continue; }
-                x.live = true; x.texts.clear(); x.pins.clear(); inherit(x, s[a], a); inherit(x, s[b], b);
+                x.live = true; x.damaged = s[a].damaged || s[b].damaged; x.texts.clear(); x.pins.clear(); inherit(x, s[a], a); inherit(x, s[b], b);
                 x.origin = fmt("%s(%s , %s, %d)", isResolve ? "resolve" : "createRef", s[a].origin.c_str(), s[b].origin.c_str(), flag);
                 log(fmt("s%d=%s(s%d,s%d,%d)", d, isResolve ? "resolve" : "createRef", a, b, flag));
                 check_object(d, isResolve ? "resolve" : "createref");
@@ -154,10 +164,12 @@ template <class X> struct Hist {
                 Str ta = text(a), tb = text(b);
                 if (deep_snapshot<X>(s[a].u) != snapA || deep_snapshot<X>(s[b].u) != snapB) c->violation("C12", fmt("hist/%s/readonly-query-modified-argument", X::tag()), trace);
                 if (eq != eq2) c->violation("C11", fmt("hist/%s/equals-not-symmetric", X::tag()), fmt("a=%s b=%s", s[a].origin.c_str(), s[b].origin.c_str()));
-                if ((eq != 0) != (ta == tb)) c->violation("C11", fmt("hist/%s/equals-vs-text/%s", X::tag(), eq ? "equal-but-texts-differ" : "same-text-not-equal"), fmt("a=%s text=\"%s\" b=%s text=\"%s\"", s[a].origin.c_str(), esc(ta).c_str(), s[b].origin.c_str(), esc(tb).c_str()));
+                bool judged = !s[a].damaged && !s[b].damaged;      // (objects with a failed operation in their past: see check_object)
+                if (!judged) c->count("equals_pairs_not_judged_damaged_lineage");
+                else if ((eq != 0) != (ta == tb)) c->violation("C11", fmt("hist/%s/equals-vs-text/%s", X::tag(), eq ? "equal-but-texts-differ" : "same-text-not-equal"), fmt("a=%s text=\"%s\" b=%s text=\"%s\"", s[a].origin.c_str(), esc(ta).c_str(), s[b].origin.c_str(), esc(tb).c_str()));
                 else c->count(eq ? "equals_agree_equal" : "equals_agree_different");
                 // a re-parse of a's text must be equal to a (produced objects vs parsed objects)
-                if (r.chance(1, 2)) {
+                if (judged && r.chance(1, 2)) {
                     UriBox<X> p; if (p.parse(ta) == URI_SUCCESS) { int e3; { LibScope ls; e3 = X::EqualsUri(&s[a].u, &p.u); } Str tp; p.str(&tp); c->evaluations++;
                         if ((e3 != 0) != (tp == ta)) c->violation("C11", fmt("hist/%s/equals-vs-text/reparsed-%s", X::tag(), e3 ? "equal-but-texts-differ" : "same-text-not-equal"), fmt("a=%s text=\"%s\" reparsed text=\"%s\"", s[a].origin.c_str(), esc(ta).c_str(), esc(tp).c_str())); }
                 }
